@@ -24,7 +24,7 @@ func runC02(ctx *core.Ctx) {
 		"non-trivial = at least 2 deliveries and at least one delivery whose started-count was below the total (early), one late row demanded or forbidden (late), one garbage row (garbage); distinct by (SQL, rows, feed) hash")
 	ctx.Assume("single producer; block strategy", "the started-Emit counter read inside the sink is an upper bound of the rows processed, so the no-early-firing condition is necessary, not sufficient",
 		"the zone where the statement's two lateness criteria disagree (ts < watermark−AL but window_end+AL > watermark) is left unconstrained (DESIGN §5 C02)")
-	n := ctx.N(36, 1500)
+	n := ctx.N(54, 1500)
 	ctx.Cases("c02early", n, 4*workers(), func(i int, r *rand.Rand) {
 		var c *evCase
 		ref := core.CaseRef{Stream: "c02early", Index: i}
@@ -34,7 +34,11 @@ func runC02(ctx *core.Ctx) {
 		case 1:
 			c = genEvSliding(ref, r)
 		default:
-			c = genEvSession(ref, r)
+			if i%2 == 0 {
+				c = genC02SessionInside(ref, r)
+			} else {
+				c = genEvSession(ref, r)
+			}
 		}
 		c.Feed = pick(r, []string{"paced", "step", "step"})
 		execC02Early(ctx, c)
@@ -55,6 +59,46 @@ func runC02(ctx *core.Ctx) {
 		ctx.Count("hook_hits."+k, v)
 	}
 	ctx.Count("perturbation_actions", sched.Acted())
+}
+
+// genC02SessionInside: sessions that receive an out-of-order (but on-time) event lying strictly inside them,
+// after which another key's event moves the watermark to a point between (that inner event + timeout) and the
+// session's real end (its latest event + timeout); one more event of the session follows.  Nothing may be
+// delivered for the session until the watermark passes the real end.
+func genC02SessionInside(ref core.CaseRef, r *rand.Rand) *evCase {
+	c := &evCase{CaseRef: ref, Kind: "session", Grouped: true, Pattern: "inside"}
+	T := pick(r, []int64{500, 1000, 5000})
+	c.SizeMs = T
+	c.MooMs = pick(r, []int64{T / 2, T, 2 * T})
+	t0 := 4*(c.MooMs+T) + int64(r.Intn(int(T)))
+	id := 0
+	add := func(ts int64, k string) {
+		id++
+		c.Rows = append(c.Rows, evRow{ID: id, TS: ts, K: k, V: r.Intn(100)})
+	}
+	var max int64
+	for m, n := 0, 2+r.Intn(4); m < n; m++ {
+		k, other := plainKeys[m%3], plainKeys[(m+1)%3]
+		hi := 5*T/10 + int64(r.Intn(int(3*T/10))) // latest event of the session so far, relative to t0
+		in := 1 + int64(r.Intn(int(hi-1)))          // the inner, out-of-order event
+		if hi-in > c.MooMs {
+			in = hi - c.MooMs
+		}
+		add(t0, k)
+		add(t0+hi, k)
+		add(t0+in, k)
+		wm := t0 + in + T + int64(r.Intn(int(hi-in))) // watermark aimed inside [inner+T, latest+T)
+		add(wm+c.MooMs, other)
+		add(t0+hi+T-1-int64(r.Intn(int(T/10))), k) // still within the timeout of the latest event
+		max = wm + c.MooMs
+		if e := t0 + hi + T; e > max {
+			max = e
+		}
+		t0 = max + 3*T + c.MooMs + int64(r.Intn(int(T)))
+	}
+	c.Tail = max + c.MooMs + 10*T
+	c.buildSQL()
+	return c
 }
 
 // prefixMax[i] = largest usable timestamp among the first i emitted rows (rows, then sentinel).
@@ -95,6 +139,12 @@ func execC02Early(ctx *core.Ctx, c *evCase) {
 	pm := c.prefixMax()
 	binding := 0
 	seen := map[int]bool{}
+	tsOf := map[int]int64{}
+	for _, r := range c.Rows {
+		if r.G == "" {
+			tsOf[r.ID] = r.TS
+		}
+	}
 	for _, w := range wins {
 		st := int(w.Start0)
 		if st > len(c.Rows)+1 {
@@ -103,7 +153,17 @@ func execC02Early(ctx *core.Ctx, c *evCase) {
 		if st <= len(c.Rows) {
 			binding++
 		}
-		if pm[st] < w.End+c.MooMs {
+		end := w.End
+		if c.Kind == "session" {
+			// a session ends at its latest event plus the timeout, whatever end the result claims
+			for _, id := range w.IDs {
+				if ts, ok := tsOf[id]; ok && ts+c.SizeMs > end {
+					end = ts + c.SizeMs
+				}
+			}
+		}
+		if pm[st] < end+c.MooMs {
+			w.End = end
 			viol("watermark.early_firing", fmt.Sprintf("%s result [%d,%d) delivered when only %d Emit calls had started; their largest timestamp %d < window_end+MAXOUTOFORDERNESS = %d",
 				c.Kind, w.Start, w.End, st, pm[st], w.End+c.MooMs))
 			return
@@ -140,9 +200,12 @@ func genC02Late(ref core.CaseRef, r *rand.Rand) *evCase {
 	}
 	switch c.Kind {
 	case "tumbling":
-		c.SizeMs = pick(r, []int64{1000, 2000})
+		c.SizeMs = pick(r, []int64{1000, 2000, 700, 7000})
 	case "sliding":
 		c.SizeMs, c.SlideMs = 2000, 1000
+		if r.Intn(3) == 0 {
+			c.SizeMs, c.SlideMs = 2100, 700
+		}
 	case "session":
 		c.SizeMs = 1000
 	}
@@ -420,6 +483,14 @@ func execC02Garbage(ctx *core.Ctx, ref core.CaseRef, r *rand.Rand) {
 	}
 	c.Tail = max + c.MooMs + c.AlMs + 10*c.SizeMs + 6*c.SlideMs
 	c.buildSQL()
+	ahead := r.Intn(3) == 0
+	if ahead {
+		// the whole sequence lies 3-20 h ahead of the wall clock (accepted: < 24 h); "future" garbage is then
+		// > 24 h ahead of the clock although < 24 h ahead of the largest accepted event
+		const grid = 60060000
+		c.Base = (time.Now().Add(20*time.Hour).UnixMilli() / grid) * grid
+		c.Pattern = "garbage_ahead"
+	}
 	// dirty sequence: interleave garbage
 	d := *c
 	d.Rows = nil
@@ -427,6 +498,7 @@ func execC02Garbage(ctx *core.Ctx, ref core.CaseRef, r *rand.Rand) {
 	ng := 0
 	kinds := map[string]int{}
 	var curMax int64 = -1 << 62
+	aheadDone := false
 	addG := func(kind string, ts int64, k any) {
 		gid++
 		ng++
@@ -440,6 +512,10 @@ func execC02Garbage(ctx *core.Ctx, ref core.CaseRef, r *rand.Rand) {
 		d.Rows = append(d.Rows, row)
 		if row.TS > curMax {
 			curMax = row.TS
+		}
+		if ahead && (!aheadDone || r.Intn(8) == 0) {
+			aheadDone = true
+			addG("future", int64(r.Intn(3600000)), row.K)
 		}
 		if r.Intn(5) == 0 {
 			switch g := pick(r, []string{"future", "missing", "nil", "text", "toolate", "toolate"}); g {
